@@ -368,13 +368,17 @@ pub fn case_json(case: &Case, scale: usize) -> Value {
     let mut naive = Naive { regs: vec![f64::MAX; case.m] };
     for (ci, items) in visited.iter().enumerate() {
         let mut its = Vec::new();
-        for (id, w) in items {
+        // sequential estimate per item; the two-pass variant interleaves the items of a batch, so
+        // every item of the batch may be asked for as many points as the hungriest one
+        let needs: Vec<usize> = items.iter().map(|(id, w)| {
+            if case.variant == "2" { 0 } else if *w > 0. && w.is_finite() { naive.needed3(*id, *w, case.m, &case.hasher) } else { 8 }
+        }).collect();
+        let batch_max = needs.iter().cloned().max().unwrap_or(0);
+        for ((id, w), need) in items.iter().zip(needs.iter()) {
             let sc: Value = if case.variant == "2" {
                 json!(script2(*id, *w, case.m, &case.hasher).iter().map(|(h, k)| json!([h, k])).collect::<Vec<_>>())
             } else {
-                let need = if *w > 0. && w.is_finite() { naive.needed3(*id, *w, case.m, &case.hasher) } else { 8 };
-                let mult = if case.variant == "3" { 1 } else { 2 };
-                let n = (need * mult + 4) * scale;
+                let n = if case.variant == "3" { (*need + 4) * scale } else { (batch_max + 8) * scale };
                 json!(script3(*id, *w, case.m, &case.hasher, n).iter()
                     .map(|(h, k, l)| json!([h, k, l])).collect::<Vec<_>>())
             };
